@@ -3084,9 +3084,13 @@ impl Server {
                 let timeout_str = String::from_utf8_lossy(bytes);
                 // Try parsing as float first to handle both integer and decimal values
                 match timeout_str.parse::<f64>() {
-                    Ok(t) if t < 0.0 => return Ok(RespFrame::error("ERR timeout is not a float or out of range")),
+                    Ok(t) if t.is_nan() || t < 0.0 => return Ok(RespFrame::error("ERR timeout is not a float or out of range")),
                     Ok(0.0) => None, // 0 means block forever
-                    Ok(t) => Some(std::time::Duration::from_secs_f64(t)),
+                    // A number too large for a duration (infinity included) is out of range
+                    Ok(t) => match std::time::Duration::try_from_secs_f64(t) {
+                        Ok(d) => Some(d),
+                        Err(_) => return Ok(RespFrame::error("ERR timeout is not a float or out of range")),
+                    },
                     Err(_) => return Ok(RespFrame::error("ERR timeout is not a float or out of range")),
                 }
             }
@@ -3115,7 +3119,8 @@ impl Server {
         }
         
         // No data available, register as blocked
-        let deadline = timeout.map(|t| Instant::now() + t);
+        // A deadline beyond what the clock can represent means waiting without a deadline
+        let deadline = timeout.and_then(|t| Instant::now().checked_add(t));
         self.blocking_manager.register_blocked(db_index, conn_id, keys.clone(), BlockingOp::BLPop, deadline)?;
         
         // Move connection to blocked state
@@ -3143,9 +3148,13 @@ impl Server {
                 let timeout_str = String::from_utf8_lossy(bytes);
                 // Try parsing as float first to handle both integer and decimal values
                 match timeout_str.parse::<f64>() {
-                    Ok(t) if t < 0.0 => return Ok(RespFrame::error("ERR timeout is not a float or out of range")),
+                    Ok(t) if t.is_nan() || t < 0.0 => return Ok(RespFrame::error("ERR timeout is not a float or out of range")),
                     Ok(0.0) => None, // 0 means block forever
-                    Ok(t) => Some(std::time::Duration::from_secs_f64(t)),
+                    // A number too large for a duration (infinity included) is out of range
+                    Ok(t) => match std::time::Duration::try_from_secs_f64(t) {
+                        Ok(d) => Some(d),
+                        Err(_) => return Ok(RespFrame::error("ERR timeout is not a float or out of range")),
+                    },
                     Err(_) => return Ok(RespFrame::error("ERR timeout is not a float or out of range")),
                 }
             }
@@ -3174,7 +3183,8 @@ impl Server {
         }
         
         // No data available, register as blocked
-        let deadline = timeout.map(|t| Instant::now() + t);
+        // A deadline beyond what the clock can represent means waiting without a deadline
+        let deadline = timeout.and_then(|t| Instant::now().checked_add(t));
         self.blocking_manager.register_blocked(db_index, conn_id, keys.clone(), BlockingOp::BRPop, deadline)?;
         
         // Move connection to blocked state
